@@ -44,7 +44,8 @@ WIDTHS = [1, 1.5, 2, 2.7, 3, 5]
 # documented support of each kernel as a multiple of its width (used only to size the signals)
 SUPPORT = {"Gaussian": 3.0, "Exponential": 3.0, "Uniform": 2.0, "Triangular": 1.5, "Epanechnikov": 1.5,
            "Spheric": 1.0, "Cubic": 1.0}
-SIGNALS = ["random", "integer", "constant", "monotone", "impulse", "nan", "constant_nan", "pyint", "pyint_constant"]
+SIGNALS = ["random", "integer", "constant", "monotone", "impulse", "nan", "constant_nan", "pyint", "pyint_constant",
+           "fill_value"]
 VIAS_KERNEL = ["operate", "operate_inplace", "seq_x", "seq_y", "seq_z", "seq_xyz", "seq_feature"]
 REL = 1e-9
 
@@ -121,6 +122,12 @@ def _signal(rng, kind, n):
         s = [0.0] * n
         s[rng.randrange(n)] = rng.choice([1.0, 1.0, -2.0, 7.5])
         return s
+    if kind == "fill_value":
+        # ordinary values with ONE fill value / gross outlier many orders of magnitude larger, early in the series
+        # (NetCDF _FillValue 9.96921e36, 1e20): the outputs whose window does not hold it are ordinary
+        s = [rng.uniform(1.0, 300.0) for _ in range(n)]
+        s[rng.randrange(0, max(1, n // 3))] = rng.choice([9.96921e36, 1e20, -1e30])
+        return s
     if kind in ("nan", "constant_nan"):
         s = _signal(rng, "constant" if kind == "constant_nan" else rng.choice(["random", "integer", "monotone"]), n)
         i = rng.randrange(n)
@@ -196,15 +203,16 @@ def cases(chunk):
     elif kind == "lists":
         for _ in range(chunk["n"]):
             sym = rng.random() < 0.35
-            if rng.random() < 0.04:
+            intk = rng.random() < 0.08
+            if intk:
                 kspec = {"int": rng.choice([1, 3, 5, 7])}
                 via = rng.choice(["seq_x", "seq_y", "seq_z", "seq_xyz", "seq_feature"])
             else:
                 kspec = {"weights": _weights(rng, sym)}
                 via = rng.choice(["operate", "operate", "operate", "operate_inplace", "seq_x", "seq_y", "seq_z",
                                   "seq_xyz", "seq_feature"])
-            sk = rng.choice(SIGNALS)
-            n = _window_len(kspec) + rng.choice([0, 0, 1, 2, 3, 5, 10])
+            sk = rng.choice(SIGNALS + (["fill_value", "fill_value"] if intk else []))
+            n = _window_len(kspec) + rng.choice([0, 0, 1, 2, 3, 5, 10]) + (rng.choice([0, 15, 40]) if sk == "fill_value" else 0)
             yield {"kind": "filter", "kernel": kspec, "via": via, "sigkind": sk, "signals": _signals_for(rng, via, sk, n)}
     elif kind == "kernels":
         combos = []
@@ -233,6 +241,17 @@ def cases(chunk):
                 # larger scale: tracks of a thousand observations and more
                 n = rng.choice([1000, 1024, 1500, 2500])
                 sk = rng.choice(["random", "monotone", "nan", "pyint", "constant"])
+            giant = (_ % 1500 == 11) and chunk["shard"] % 8 == 5
+            if giant:
+                # much larger scale: hours of 1 Hz data smoothed over minutes (size x window beyond a million), the
+                # boundaries filtered, no NaN
+                kspec = {"type": "Gaussian", "width": rng.choice([34, 36.5]), "boundary": True}
+                n = rng.choice([5400, 6100])
+                sk = rng.choice(["random", "monotone"])
+                via = rng.choice(["operate", "seq_x", "seq_feature"])
+                yield {"kind": "filter", "kernel": kspec, "via": via, "sigkind": sk, "signals": _signals_for(rng, via, sk, n),
+                       "limit_x": 10, "giant": 1}
+                continue
             yield {"kind": "filter", "kernel": kspec, "via": via, "sigkind": sk, "signals": _signals_for(rng, via, sk, n)}
     elif kind == "smooth":
         for i in range(chunk["n"]):
@@ -522,6 +541,8 @@ def run_case(case, ctx):
         cls.add("signal_of_python_ints")
     if "signals" in case and len(next(iter(case["signals"].values()))) >= 1000:
         cls.add("track_of_1000+_observations")
+    if case.get("giant"):
+        cls.add("size_times_window_beyond_a_million")
     if "weights" in kspec:
         w = kspec["weights"]
         cls.add("symmetric_list" if w == w[::-1] else "asymmetric_list")
